@@ -82,6 +82,7 @@ type Unit struct {
 	qsorts          map[string]string
 	readLog         map[string]string
 	noInv           bool
+	noLoopInv       bool // declared loop invariants are not used in this unit
 	skipInv         map[string]bool
 	insertOnlyAddrs []*Val
 	noDeleteAddrs   []*Val
